@@ -480,13 +480,25 @@ class Progress(object):
 # ------------------------------------------------------------------------------
 #
 def gen_case(rng, simple=False, n_tasks=None, allow_app_slots=True,
-             allow_cancel=True):
+             allow_cancel=True, allow_raptor=True):
 
     lay = gen_layout(rng)
     n   = n_tasks or rng.randint(1, 9)
     tasks = [gen_task(rng, lay, 't.%02d' % i, simple=simple,
                       allow_app_slots=allow_app_slots) for i in range(n)]
+    raptor = False
+    if allow_raptor and rng.random() < 0.25:
+        # some tasks belong to a raptor master (named, or any: '*') whose
+        # queue registers / unregisters at some point of the history; some of
+        # them come back from the master (`raptor_seen`) to run here
+        raptor = True
+        for t in tasks:
+            if rng.random() < 0.45 and not t.get('app_slots'):
+                t['raptor_id'] = rng.choice(['raptor.0', 'raptor.0', '*'])
+                if rng.random() < 0.25:
+                    t['raptor_seen'] = True
     return {'layout'      : lay,
+            'raptor'      : raptor,
             'scheduler'   : 'CONTINUOUS',
             'scattered'   : rng.random() < 0.75,
             'random_bulk' : rng.random() < 0.5,
@@ -515,6 +527,8 @@ def drive(sim, rng, progress=None, settle=True):
             acts += ['cancel']
         if need_env and not env_reg:
             acts += ['env']
+        if case.get('raptor'):
+            acts += ['raptor'] * 2
         a = rng.choice(acts)
         if a == 'arrive':
             k = rng.randint(1, min(3, len(pending)))
@@ -543,6 +557,10 @@ def drive(sim, rng, progress=None, settle=True):
         elif a == 'env':
             sim.control('register_named_env', {'env_name': 'env1'})
             env_reg = True
+            if rng.random() < 0.6:
+                sim.pump()
+        elif a == 'raptor':
+            sim.raptor(register=not getattr(sim, 'raptor_wanted', False))
             if rng.random() < 0.6:
                 sim.pump()
 
